@@ -8,13 +8,14 @@ B="$1"; RACE="${2:-}"
 export GOFLAGS=-mod=mod GOPROXY=off GOSUMDB=off GOTOOLCHAIN=local
 export GOCACHE=${VERIF_GOCACHE:-/var/tmp/verif-gocache}
 GO=/opt/veriftools/go1.26.8/bin/go
+VD=${VERIF_DIR:-/verif}
 REPO=${VERIF_REPO:-/repo}
 OV=/var/tmp/verif-overlay
 mkdir -p "$B" "$OV" || exit 2
 # generate into a private directory, then move changed files into place
 # atomically: several checks may be building at the same time
 OVT="$OV.tmp.$$"
-python3 /verif/sim/rtoverlay/gen.py /opt/veriftools/go1.26.8 "$OVT" >/dev/null || { rm -rf "$OVT"; echo "BUILD-ERROR: runtime overlay generation failed" >&2; exit 2; }
+python3 $VD/sim/rtoverlay/gen.py /opt/veriftools/go1.26.8 "$OVT" >/dev/null || { rm -rf "$OVT"; echo "BUILD-ERROR: runtime overlay generation failed" >&2; exit 2; }
 sed -i "s|$OVT|$OV|g" "$OVT/overlay.json"
 for f in "$OVT"/*; do
   b=$(basename "$f")
@@ -22,12 +23,12 @@ for f in "$OVT"/*; do
 done
 rm -rf "$OVT"
 rm -rf "$B/sim" && mkdir -p "$B/sim" || exit 2
-(cd /verif/sim && tar cf - --exclude=goplugin --exclude='*.test' .) | (cd "$B/sim" && tar xf -) || exit 2
+(cd "$VD/sim" && tar cf - --exclude=goplugin --exclude='*.test' .) | (cd "$B/sim" && tar xf -) || exit 2
 # go.mod mirrors the repository's own requirements (same dependency versions)
 sed -e 's|^module .*|module simworld|' -e 's|^go [0-9.]*$|go 1.26|' -e '/^toolchain /d' "$REPO/go.mod" > "$B/sim/go.mod" || exit 2
 printf '\nrequire github.com/anishathalye/porcupine v1.3.0\n' >> "$B/sim/go.mod"
 cp "$REPO/go.sum" "$B/sim/go.sum" 2>/dev/null
-[ -f /verif/sim/go.sum.extra ] && cat /verif/sim/go.sum.extra >> "$B/sim/go.sum"
+[ -f $VD/sim/go.sum.extra ] && cat $VD/sim/go.sum.extra >> "$B/sim/go.sum"
 if [ ! -x "$B/simgen" ]; then
   (cd "$B/sim" && $GO build -o "$B/simgen" ./cmd/simgen) || { echo "BUILD-ERROR: simgen" >&2; exit 2; }
 fi
@@ -44,8 +45,8 @@ GRPCDIR=$($GO list -m -f '{{.Dir}}' google.golang.org/grpc 2>/dev/null)
 DEP=/var/tmp/verif-deps/grpc@$GRPCVER
 if [ ! -f "$DEP/.patched2" ]; then
   rm -rf "$DEP.tmp.$$" && mkdir -p /var/tmp/verif-deps && cp -r "$GRPCDIR" "$DEP.tmp.$$" && chmod -R u+w "$DEP.tmp.$$" || exit 2
-  python3 /verif/sim/rtoverlay/grpcrand.py "$GRPCDIR/internal/grpcrand/grpcrand.go" "$DEP.tmp.$$/internal/grpcrand/grpcrand.go" || { echo "BUILD-ERROR: grpcrand patch" >&2; exit 2; }
-  python3 /verif/sim/rtoverlay/grpcretry.py "$DEP.tmp.$$/stream.go" || { echo "BUILD-ERROR: grpc retry patch" >&2; exit 2; }
+  python3 $VD/sim/rtoverlay/grpcrand.py "$GRPCDIR/internal/grpcrand/grpcrand.go" "$DEP.tmp.$$/internal/grpcrand/grpcrand.go" || { echo "BUILD-ERROR: grpcrand patch" >&2; exit 2; }
+  python3 $VD/sim/rtoverlay/grpcretry.py "$DEP.tmp.$$/stream.go" || { echo "BUILD-ERROR: grpc retry patch" >&2; exit 2; }
   touch "$DEP.tmp.$$/.patched2"
   rm -rf "$DEP"; mv "$DEP.tmp.$$" "$DEP" 2>/dev/null || rm -rf "$DEP.tmp.$$"
 fi
